@@ -78,6 +78,29 @@ operator = (const CPPStructType &copy) {
 }
 
 /**
+ * Returns true if the indicated type is, or derives from, the class with the
+ * given fully scoped name (which may so far only have been forward-declared).
+ */
+static bool
+derives_from_named(CPPType *type, const std::string &name, int depth) {
+  if (type == nullptr || depth > 100) {
+    return false;
+  }
+  if (type->get_fully_scoped_name() == name) {
+    return true;
+  }
+  CPPStructType *struct_type = type->as_struct_type();
+  if (struct_type != nullptr) {
+    for (const CPPStructType::Base &base : struct_type->_derivation) {
+      if (derives_from_named(base._base, name, depth + 1)) {
+        return true;
+      }
+    }
+  }
+  return false;
+}
+
+/**
  * A handy function used while parsing to add a new base class to the list of
  * classes (or structs) this class derives from.
  */
@@ -91,9 +114,10 @@ append_derivation(CPPType *base, CPPVisibility vis, bool is_virtual) {
       def = base->as_typedef_type();
     }
 
-    if (base == this) {
-      // A class cannot be its own base class.  Ignore this, since otherwise
-      // we would recurse forever when we walk the derivation later.
+    if (base == this || derives_from_named(base, get_fully_scoped_name(), 0)) {
+      // A class cannot be its own (direct or indirect) base class.  Ignore
+      // this, since otherwise we would recurse forever when we walk the
+      // derivation later.
       return;
     }
 
